@@ -634,7 +634,7 @@ def replay(ctx, case):
 
 
 MANIFEST = dict(
-    text="Proof (PARTIAL): MultiTargetMCSU2, general branch (k >= 8 controls, or k >= 6 with two targets or more), any number of targets, every pattern: the operator is the product over the targets of the controlled U_i (C04_multitarget: multi-target V-chains on arbitrary placements via the general placement theorem, rows of per-target gates regrouped column by column - Transpose.transpose -, the one-target identity per column); Ldmcsu's eigenbasis branch (both diagonals complex) for every k >= 2 and every pattern, given four 2x2 identities on the emitted one-qubit gates (C04_ldmcsu_eig: the action_only V-chain and its inverse cancel their residue across the gates between them); LdMcSpecialUnitary end to end for every k >= 1 controls and every pattern given the ABC identities on the matrices (C04_ldmc_special: controlled C, LinearMcx onto the target borrowing the last control - action_only from six controls on -, controlled B, the inverse LinearMcx, controlled A, each controlled gate a nested a ; cx ; b ; cx ; c block); Ldmcu end to end for every T >= 1 controls, every control pattern and every invertible W (C04_ldmcu): the gate list in the order the code emits it - four sweeps of controlled RX(+-pi/2^e) and controlled roots of U over the pairs (control, target) sorted stably by control + target - applies W^(2^(T-1)) = U to the target exactly on the matching basis states and restores every control with its phase; proof = trace equivalence of the sorted sweeps with their grouped form (Resort.resort), merging of the gates of one target in a one-parameter group, the cascade 'flip qubit j iff all lower qubits are 1' by induction (LdmcuCore.Sl_sem, Sl'_sem) and the weight identity C04_ldmcu_weights; Qdmcu end to end for every number of controls, every control pattern and every 2x2 matrix family with V_(l+1)^2 = V_l, V_l V_l^dagger = 1: the gate list of QdmcuModel.qdmcu (controlled V, action-only LinearMcx on the lower controls with the target as dirty ancilla, controlled V^dagger, the inverse LinearMcx, recursion on the remaining controls with the next square root) applies U to the target exactly on the basis states matching the pattern and the identity elsewhere (C04_qdmcu; it rests on the exact LinearMcx for every k >= 1 and every pattern, C04_linear_mcx_exact, on the factorisation exact = controls-only circuit after action-only, and on a polarity version of Barenco Lemma 7.5); the spectral square root squares to the matrix (C04_spectral_sqrt); the recursion step of Qdmcu (Barenco Lemma 7.5) for any placement and any 'rest' predicate (C04_barenco_step), and the fourth-root identity of Ldmcsu._compute_gate_a over the reals (C04_gate_a_fourth_root); Ldmcsu end to end for every k >= 2, every control pattern and every SU(2) matrix with a real main or secondary diagonal: the gate list of LdmcsuModel.ldmcsu (two dirty V-chains, their inverses, A / A^dagger, optional H conjugation) applies U to the target exactly on the basis states matching the pattern and the identity elsewhere (C04_ldmcsu_plain, C04_ldmcsu_hconj, built on C05's placed V-chain theorems). Tie: the flattened Ldmcu, Ldmcsu, LdMcSpecialUnitary and Qdmcu definitions are compared with the models' gate lists inside Coq; every custom_sqrtm and _compute_gate_a call made while building gates for boundary and random SU(2) matrices is checked against the theorem's premises/conclusion in matrix form. All gate classes (Ldmcu, Ldmcsu, LdMcSpecialUnitary, Qdmcu, Mcg, MCU, MultiTargetMCSU2), patterns and boundary matrices are evaluated against the ideal controlled operator.",
+    text="Proof (PARTIAL): MultiTargetMCSU2, general branch (k >= 8 controls, or k >= 6 with two targets or more), any number of targets, every pattern: the operator is the product over the targets of the controlled U_i (C04_multitarget: multi-target V-chains on arbitrary placements via the general placement theorem, rows of per-target gates regrouped column by column - Transpose.transpose -, the one-target identity per column); Ldmcsu's eigenbasis branch (both diagonals complex) for every k >= 2 and every pattern, given four 2x2 identities on the emitted one-qubit gates (C04_ldmcsu_eig: the action_only V-chain and its inverse cancel their residue across the gates between them); LdMcSpecialUnitary end to end for every k >= 1 controls and every pattern given the ABC identities on the matrices (C04_ldmc_special: controlled C, LinearMcx onto the target borrowing the last control - action_only from six controls on -, controlled B, the inverse LinearMcx, controlled A, each controlled gate a nested a ; cx ; b ; cx ; c block); Ldmcu end to end for every T >= 1 controls, every control pattern and every invertible W (C04_ldmcu): the gate list in the order the code emits it - four sweeps of controlled RX(+-pi/2^e) and controlled roots of U over the pairs (control, target) sorted stably by control + target - applies W^(2^(T-1)) = U to the target exactly on the matching basis states and restores every control with its phase; proof = trace equivalence of the sorted sweeps with their grouped form (Resort.resort), merging of the gates of one target in a one-parameter group, the cascade 'flip qubit j iff all lower qubits are 1' by induction (LdmcuCore.Sl_sem, Sl'_sem) and the weight identity C04_ldmcu_weights; Qdmcu end to end for every number of controls, every control pattern and every 2x2 matrix family with V_(l+1)^2 = V_l, V_l V_l^dagger = 1: the gate list of QdmcuModel.qdmcu (controlled V, action-only LinearMcx on the lower controls with the target as dirty ancilla, controlled V^dagger, the inverse LinearMcx, recursion on the remaining controls with the next square root) applies U to the target exactly on the basis states matching the pattern and the identity elsewhere (C04_qdmcu; it rests on the exact LinearMcx for every k >= 1 and every pattern, C04_linear_mcx_exact, on the factorisation exact = controls-only circuit after action-only, and on a polarity version of Barenco Lemma 7.5); the spectral square root squares to the matrix (C04_spectral_sqrt); the recursion step of Qdmcu (Barenco Lemma 7.5) for any placement and any 'rest' predicate (C04_barenco_step), and the fourth-root identity of Ldmcsu._compute_gate_a over the reals (C04_gate_a_fourth_root); Ldmcsu end to end for every k >= 2, every control pattern and every SU(2) matrix with a real main or secondary diagonal: the gate list of LdmcsuModel.ldmcsu (two dirty V-chains, their inverses, A / A^dagger, optional H conjugation) applies U to the target exactly on the basis states matching the pattern and the identity elsewhere (C04_ldmcsu_plain, C04_ldmcsu_hconj, built on C05's placed V-chain theorems). Tie: the flattened Ldmcu, Ldmcsu (both branches), LdMcSpecialUnitary, MultiTargetMCSU2 and Qdmcu definitions are compared with the models' gate lists inside Coq; every custom_sqrtm and _compute_gate_a call made while building gates for boundary and random SU(2) matrices is checked against the theorem's premises/conclusion in matrix form. All gate classes (Ldmcu, Ldmcsu, LdMcSpecialUnitary, Qdmcu, Mcg, MCU, MultiTargetMCSU2), patterns and boundary matrices are evaluated against the ideal controlled operator.",
     note='Modelled, not verified: Qiskit .control(), UnitaryGate; scipy schur inside custom_sqrtm (its output is checked, not modelled) and inside Ldmcu._gate_u (its roots are checked to be integer powers of the deepest root); numpy eig inside the eigenbasis branch of Ldmcsu (the identities it must deliver are checked), the ZYZ angles behind the ABC operators (their identities are checked), MCU bound and the small-k branches of the multi-target variant are evaluated only.',
     technique='Coq proof (operator algebra on monomial/permuted states; trace equivalence of commuting gate orders; one-parameter groups; real sqrt algebra) + runtime contract monitors + operator / random-state evaluation',
     design_ref='DESIGN.md section 4, C04')
